@@ -9,6 +9,10 @@ rule that matched spelling instead of meaning.  Nothing from /repo is executed; 
   copy     `x.copy()` -> `dict(x)` on plain names (the four memos are dicts)
   rettemp  `return <call>` -> `result_ = <call>; return result_` (not in generators)
   elseret  `if a: return X else: Y...` -> `if a: return X` + `Y...` (else after return dropped)
+  rename2  like rename, closure variables included (suffix `_w`)
+  nestand  `if a and b: X` -> `if a: if b: X`
+  guard    trailing `if c: BODY` of a loop body -> `if not c: continue` + BODY
+  testtemp `if <call>:` -> `testN_ = <call>; if testN_:`
 usage: mech_refactor.py [--props C01,C04] [--only rename,flip]"""
 import ast, copy, glob, os, shutil, sys, tempfile
 sys.path.insert(0, os.path.dirname(os.path.dirname(os.path.abspath(__file__))))
@@ -128,7 +132,89 @@ def t_elseret(tree):
     return tree
 
 
-TRANSFORMS = {"rename": t_rename, "flip": t_flip, "copy": t_copy, "rettemp": t_rettemp, "elseret": t_elseret}
+def t_rename2(tree):
+    """like rename, but also the locals that nested scopes read (closure variables), when no nested scope binds the name"""
+    SC = (ast.FunctionDef, ast.AsyncFunctionDef, ast.Lambda, ast.ClassDef, ast.ListComp, ast.SetComp, ast.DictComp, ast.GeneratorExp)
+    fns = [n for n in ast.walk(tree) if isinstance(n, (ast.FunctionDef, ast.AsyncFunctionDef))]
+    for fn in fns:
+        if any(isinstance(x, (ast.Global, ast.Nonlocal)) for x in ast.walk(fn)):
+            continue
+        if any(isinstance(x, ast.Name) and x.id in ("locals", "vars", "eval", "exec") for x in ast.walk(fn)):
+            continue
+        params = {a.arg for a in ast.walk(fn.args) if isinstance(a, ast.arg)}
+        stored = {x.id for x in own_nodes(fn) if isinstance(x, ast.Name) and isinstance(x.ctx, ast.Store)} - params
+        bound_nested = set()
+        for x in ast.walk(fn):
+            if x is not fn and isinstance(x, SC):
+                if hasattr(x, "name"):
+                    bound_nested.add(x.name)
+                if hasattr(x, "args"):
+                    bound_nested |= {a.arg for a in ast.walk(x.args) if isinstance(a, ast.arg)}
+                bound_nested |= {y.id for y in ast.walk(x) if isinstance(y, ast.Name) and isinstance(y.ctx, (ast.Store, ast.Del))}
+        special = {al.asname or al.name.split(".")[0] for x in ast.walk(fn) if isinstance(x, (ast.Import, ast.ImportFrom)) for al in x.names}
+        special |= {x.name for x in ast.walk(fn) if isinstance(x, ast.ExceptHandler) and x.name}
+        todo = {n for n in stored - bound_nested - special if not n.startswith("__") and not n.endswith("_w")}
+        for x in ast.walk(fn):
+            if isinstance(x, ast.Name) and x.id in todo:
+                x.id = x.id + "_w"
+    return tree
+
+
+def _rec_blocks(tree, visit):
+    def rec(stmts):
+        for st in list(stmts):
+            if not isinstance(st, (ast.ClassDef,)):
+                for fld in ("body", "orelse", "finalbody"):
+                    sub = getattr(st, fld, None)
+                    if isinstance(sub, list) and sub and isinstance(sub[0], ast.stmt):
+                        rec(sub)
+                for hd in getattr(st, "handlers", []) or []:
+                    rec(hd.body)
+        visit(stmts)
+    for fn in [n for n in ast.walk(tree) if isinstance(n, (ast.FunctionDef, ast.AsyncFunctionDef))]:
+        rec(fn.body)
+    return tree
+
+
+def t_nestand(tree):
+    """`if a and b: X` (no else) -> `if a: if b: X`"""
+    def visit(stmts):
+        for st in stmts:
+            if isinstance(st, ast.If) and not st.orelse and isinstance(st.test, ast.BoolOp) and isinstance(st.test.op, ast.And) and len(st.test.values) == 2:
+                a, b = st.test.values
+                inner = ast.copy_location(ast.If(test=b, body=st.body, orelse=[]), st)
+                st.test, st.body = a, [inner]
+    return _rec_blocks(tree, visit)
+
+
+def t_guard(tree):
+    """last statement of a for body `if c: BODY` (no else) -> `if not c: continue` + BODY"""
+    def visit(stmts):
+        for st in stmts:
+            if isinstance(st, (ast.For, ast.While)) and st.body and isinstance(st.body[-1], ast.If) and not st.body[-1].orelse and len(st.body[-1].body) > 1:
+                i = st.body.pop()
+                t = i.test.operand if isinstance(i.test, ast.UnaryOp) and isinstance(i.test.op, ast.Not) else ast.UnaryOp(op=ast.Not(), operand=i.test)
+                st.body.append(ast.copy_location(ast.If(test=t, body=[ast.Continue()], orelse=[]), i))
+                st.body.extend(i.body)
+    return _rec_blocks(tree, visit)
+
+
+def t_testtemp(tree):
+    """`if <call>: ...` (the head of a chain) -> `test_ = <call>` + `if test_: ...`"""
+    def visit(stmts):
+        i = 0
+        while i < len(stmts):
+            st = stmts[i]
+            if isinstance(st, ast.If) and isinstance(st.test, ast.Call):
+                nm = f"test{st.lineno}_"
+                stmts.insert(i, ast.copy_location(ast.Assign(targets=[ast.Name(id=nm, ctx=ast.Store())], value=st.test, lineno=st.lineno), st))
+                st.test = ast.Name(id=nm, ctx=ast.Load())
+                i += 1
+            i += 1
+    return _rec_blocks(tree, visit)
+
+
+TRANSFORMS = {"rename": t_rename, "flip": t_flip, "copy": t_copy, "rettemp": t_rettemp, "elseret": t_elseret, "rename2": t_rename2, "nestand": t_nestand, "guard": t_guard, "testtemp": t_testtemp}
 
 
 def variant(names, files):
